@@ -81,7 +81,7 @@ template <class X> struct Hist {
 
     void run(Ctx& ctx) {
         c = &ctx; Rng& r = ctx.rng; trace.clear();
-        LibcWatch& lw = libc_watch(); lw.live.clear();
+        LibcWatch& lw = libc_watch(); lw.clear_live();
         int steps = r.chance(1, 12) ? r.range(13, 40) : r.range(3, 12);
         for (int st = 0; st < steps; st++) {
             int op = r.below(10);
@@ -169,7 +169,7 @@ template <class X> struct Hist {
         c->attribute("C13");
         for (int round = 0; round < K + 1; round++) for (int i = 0; i < K; i++) if (s[i].live && s[i].pinned == 0) release(i);
         for (int i = 0; i < K; i++) if (s[i].live) { release(i); }
-        if (lw.available && !lw.live.empty()) { c->violation("C13", fmt("hist/%s/default-allocator-leak-at-end-of-history", X::tag()), fmt("%zu libc block(s) outstanding; history: %s", lw.live.size(), trace.c_str())); lw.live.clear(); }
+        if (lw.available && !lw.live.empty()) { c->violation("C13", fmt("hist/%s/default-allocator-leak-at-end-of-history", X::tag()), fmt("%zu libc block(s) outstanding; history: %s", lw.live.size(), trace.c_str())); lw.clear_live(); }
         if (lw.available && lw.bad_free) { c->violation("C13", fmt("hist/%s/default-allocator-bad-free", X::tag()), trace); lw.bad_free = 0; }
         for (int m = 0; m < 2; m++) {
             if (led[m].outstanding()) { c->violation("C13", fmt("hist/%s/leak-at-end-of-history", X::tag()), led[m].describe_live() + " history: " + trace); led[m].release_all(); }
